@@ -173,7 +173,7 @@ def classifyRule (cfg : Config Float) (name : Bytes) (ty : Nat) (spec : Option N
   else if cfg.orderingDisabled then
     let forced := pick false (dfs (rulesFor (toGRules cfg) ty) true [] [] (splitOn 46 name))
     let forcedIdx := forced.bind fun f => ((globRules cfg)[f.rule]?).map (·.1)
-    if spec.isSome && (forcedIdx.isSome) && !(needBT ((toGRules cfg).map (·.pat)) true) then "backtracking_disabled_incomplete" else "none"
+    if spec.isSome && (forcedIdx.isSome) && !(backtracking (toGRules cfg) true) then "backtracking_disabled_incomplete" else "none"
   else "none"
 
 /-- some reference name of the template (bare or braced) is directly followed by a byte ≥ 0x80: at each `$`,
